@@ -3,14 +3,14 @@ package main
 // Translation of contract expressions (Go expression syntax) to SMT terms.
 
 import (
-	"go/constant"
-	"sort"
 	"bytes"
 	"fmt"
 	"go/ast"
+	"go/constant"
 	"go/printer"
 	"go/token"
 	"go/types"
+	"sort"
 	"strconv"
 	"strings"
 
@@ -25,14 +25,14 @@ type calleeEnv struct {
 }
 
 type specCtx struct {
-	mode     string // entry loop exit exitinv callpre callpost lemma
-	results  []SV
-	ghosts   []ghostVal
-	callee   *calleeEnv
-	oldState *State
+	mode      string // entry loop exit exitinv callpre callpost lemma
+	results   []SV
+	ghosts    []ghostVal
+	callee    *calleeEnv
+	oldState  *State
 	headState *State // loop-head state for athead(e)
-	bound    map[string]Term
-	inOld    bool
+	bound     map[string]Term
+	inOld     bool
 }
 
 func (c *specCtx) withBound(name string, t Term) *specCtx {
